@@ -49,7 +49,7 @@ PROPS = {
                 trusted=TRUSTED,
                 explanation="[P] U8c/d/e, U8b restore, F2; [E] F12 table; [B] ill-nested and unbalanced-parenthesis variants (bounded_trees.py)",
                 witnesses=["c08_interface_end_name_mismatch", "c08_subroutine_end_name_mismatch", "c08_labelled_do_end_name_mismatch",
-                           "c08_stray_end_do_inside_labelled_do", "c08_labelled_do_without_terminator", "c08_generic_spec_with_surplus_parenthesis",
+                           "c08_stray_end_do_inside_labelled_do", "c08_labelled_do_without_terminator", "c08_generic_spec_with_surplus_parenthesis", "c08_implicit_spec_with_surplus_parenthesis",
                            "c08_procedure_declaration_drops_text"]),
     "C15": dict(level="other", enum=["enum_sentinels.py", "bounded_layout.py --only C15"],
                 claim="replace_omp_sentinels proved to overwrite exactly the two sentinel characters with blanks (length and every other column "
